@@ -3,13 +3,17 @@
 package hubnet
 
 import (
+	"crypto"
 	"crypto/ecdsa"
+	"crypto/ed25519"
 	"crypto/elliptic"
 	"crypto/rand"
+	"crypto/rsa"
 	"crypto/sha1"
 	"crypto/tls"
 	"crypto/x509"
 	"crypto/x509/pkix"
+	"encoding/asn1"
 	"fmt"
 	"io"
 	"math/big"
@@ -112,46 +116,74 @@ func FreePort() int {
 // ---- certificates ----------------------------------------------------------------------------------
 
 type CertOpts struct {
-	NoSKI  bool
-	SKI    []byte // explicit SKI bytes (nil: derive from the key)
-	KeySKI bool
+	NoSKI   bool
+	SKI     []byte // explicit SKI bytes (nil: derive from the key)
+	KeyType string // "" / p256, p384, ed25519, rsa
 }
 
-// MakeCert creates a self-signed ECDSA certificate with the given SKI treatment.
+// keySKI: SHA-1 over the subjectPublicKey bit string (RFC 3280 4.2.1.2 method 1), for any key type.
+func keySKI(pub any) ([]byte, error) {
+	der, err := x509.MarshalPKIXPublicKey(pub)
+	if err != nil {
+		return nil, err
+	}
+	var spki struct {
+		Algorithm pkix.AlgorithmIdentifier
+		PublicKey asn1.BitString
+	}
+	if _, err := asn1.Unmarshal(der, &spki); err != nil {
+		return nil, err
+	}
+	sum := sha1.Sum(spki.PublicKey.RightAlign())
+	return sum[:], nil
+}
+
+// MakeCert creates a self-signed certificate with the given key type and SKI treatment.
 func MakeCert(o CertOpts) (tls.Certificate, string, error) {
-	key, err := ecdsa.GenerateKey(elliptic.P256(), rand.Reader)
+	var priv crypto.Signer
+	var err error
+	sigAlg := x509.ECDSAWithSHA256
+	switch o.KeyType {
+	case "ed25519":
+		_, k, e := ed25519.GenerateKey(rand.Reader)
+		priv, err, sigAlg = k, e, x509.PureEd25519
+	case "rsa":
+		k, e := rsa.GenerateKey(rand.Reader, 2048)
+		priv, err, sigAlg = k, e, x509.SHA256WithRSA
+	case "p384":
+		k, e := ecdsa.GenerateKey(elliptic.P384(), rand.Reader)
+		priv, err, sigAlg = k, e, x509.ECDSAWithSHA384
+	default:
+		k, e := ecdsa.GenerateKey(elliptic.P256(), rand.Reader)
+		priv, err = k, e
+	}
 	if err != nil {
 		return tls.Certificate{}, "", err
 	}
-	pub, _ := key.PublicKey.ECDH()
-	sum := sha1.Sum(pub.Bytes())
-	ski := sum[:]
+	ski, err := keySKI(priv.Public())
+	if err != nil {
+		return tls.Certificate{}, "", err
+	}
 	if o.SKI != nil {
 		ski = o.SKI
 	}
 	serial, _ := rand.Int(rand.Reader, big.NewInt(1<<62))
-	tmpl := x509.Certificate{SignatureAlgorithm: x509.ECDSAWithSHA256, SerialNumber: serial,
+	tmpl := x509.Certificate{SignatureAlgorithm: sigAlg, SerialNumber: serial,
 		Subject:   pkix.Name{Organization: []string{"verif"}, CommonName: "adversary"},
 		NotBefore: time.Now().Add(-time.Hour), NotAfter: time.Now().Add(24 * time.Hour), KeyUsage: x509.KeyUsageDigitalSignature,
 		BasicConstraintsValid: true, IsCA: true}
 	if !o.NoSKI {
 		tmpl.SubjectKeyId = ski
+	} else {
+		// x509.CreateCertificate derives a key identifier itself for CA templates without one
+		tmpl.IsCA = false
+		tmpl.BasicConstraintsValid = false
 	}
-	der, err := x509.CreateCertificate(rand.Reader, &tmpl, &tmpl, &key.PublicKey, key)
+	der, err := x509.CreateCertificate(rand.Reader, &tmpl, &tmpl, priv.Public(), priv)
 	if err != nil {
 		return tls.Certificate{}, "", err
 	}
-	if o.NoSKI {
-		// x509.CreateCertificate derives a SKI for CA certificates when none is given: strip it by
-		// making the certificate a non-CA one
-		tmpl.IsCA = false
-		tmpl.BasicConstraintsValid = false
-		der, err = x509.CreateCertificate(rand.Reader, &tmpl, &tmpl, &key.PublicKey, key)
-		if err != nil {
-			return tls.Certificate{}, "", err
-		}
-	}
-	return tls.Certificate{Certificate: [][]byte{der}, PrivateKey: key}, fmt.Sprintf("%x", ski), nil
+	return tls.Certificate{Certificate: [][]byte{der}, PrivateKey: priv}, fmt.Sprintf("%x", ski), nil
 }
 
 // ---- application (HubReaderInterface) ---------------------------------------------------------------
